@@ -165,10 +165,15 @@ def run(ctx):
         it = items[only_struct[0]]
         ctx.broken.append(f"correspondence flatten(lower P) vs the builder's commands: {len(only_struct)} differing "
                           f"programs whose behaviour still agrees with the spec, first: {json.dumps(it['prog'])[:400]}")
-    for it in items[:n_corpus]:
-        pass
     if ctx.broken and not [v for v in ctx.violations if v["key"] is None]:
         search(ctx, repo, fd)
+    if ctx.broken and not [v for v in ctx.violations if v["key"] is None]:
+        # vlib turns `broken` into a violation only when no violation at all was recorded; the
+        # replay of the known finding must not mask a correspondence that no longer checks
+        wit = items[only_struct[0]] if only_struct else None
+        ctx.violation("obligation no longer checks: " + "; ".join(ctx.broken)[:600],
+                      dict(broken=ctx.broken, sdk_program=wit and wit["prog"], outcome_script=wit and wit["script"],
+                           builder_commands=wit and wit["obs"]["protos"]), key=None, found_input=False)
     ctx.finish()
 
 
